@@ -118,7 +118,15 @@ def do_load(how, out, gpath, genome, only_chrom=None, rec=None, tamper=None):
                 p = os.path.join(out, fn)
                 if how == "ctor_shuffled":
                     # a GeneData wrapped around a frame in an order of its own (not the result file's)
-                    fr = gd.data_frame.drop(columns=["Genome_ID"]).sample(frac=1.0, random_state=11)
+                    fr0 = gd.data_frame.drop(columns=["Genome_ID"])
+                    # an order in which the row positions of the minus-strand genes are others than in the file whenever both strands
+                    # occur: minus genes first (or last, if that is the file's order already); a shuffle otherwise
+                    minus_first = sorted(range(len(fr0)), key=lambda i_: (fr0["Strand"].iloc[i_] != "-", i_))
+                    plus_first = sorted(range(len(fr0)), key=lambda i_: (fr0["Strand"].iloc[i_] == "-", i_))
+                    order_ = minus_first if minus_first != list(range(len(fr0))) else plus_first
+                    fr = fr0.iloc[order_]
+                    if list(fr.index) == list(fr0.index):
+                        fr = fr0.sample(frac=1.0, random_state=11)
                     if len(fr) > 1 and list(fr.index) == list(gd.data_frame.index):
                         fr = fr.iloc[::-1]
                     res.append(DensityData(p, GeneData(fr, gd.genome_id), LOG))
